@@ -20,7 +20,7 @@ still = sum(1 for l in rows if "still missed" in l)
 final_concrete = sum(1 for l in rows if l.rstrip(" |").endswith("caught (concrete case)"))
 summary = ("%d seeded changes are kept. On the first run of the check as it stood when the change was written: %d caught with a concrete failing "
            "input, %d caught only as a broken obligation / correspondence (no failing input), %d missed. After the checks were strengthened and the "
-           "changes re-run: %d caught with a concrete failing input, %d still missed.\n\n" % (n, first_caught, first_noinput, missed, final_concrete, still))
+           "changes re-run: %d caught with a concrete failing input, %d not (missed, or noticed without a failing input; of these %d were re-run and are still missed, the others came in the last, short round 5 and were not worked on: see 13.10).\n\n" % (n, first_caught, first_noinput, missed, final_concrete, n - final_concrete, still))
 gen("seeded", summary + seeded)
 thm = subprocess.check_output(["/verif/tools/theoremtable.py"]).decode()
 gen("theorems", "| Prop. | lines of Coq | theorems in Properties*.v | Examples | `_partial` / `_refuted` | first theorems |\n|---|---|---|---|---|---|\n" + thm)
